@@ -56,6 +56,8 @@ pub fn both(parts: &Parts, key: &DecodingKey, aud: Option<&str>, nonce: Option<&
         return false;
     }
     let mut variants = vec![("json", parts.to_json_styled(0, false)), ("json+unknown_members", parts.to_json_styled(0, true))];
+    variants.push(("json_all_strings_escaped", parts.to_json_escaped()));
+    variants.push(("json_pretty_with_surrounding_whitespace", parts.to_json_pretty_ws()));
     let pool = HEADER_POOL.with(|p| p.borrow().clone());
     if !pool.is_empty() {
         variants.push(("json+header_member_carrying_disclosures", parts.to_json_with_header(&pool)));
@@ -179,6 +181,30 @@ fn honest(rep: &Report) {
                 case["note"] = json!("holder built from the issued form and from its transcoding");
                 Violation::new("present", class, site, "honest/holder", detail, case)
             };
+            // holders built from other spellings of the same JSON document (all strings escaped; pretty-printed
+            // with surrounding whitespace) select the same disclosures as the holder of the issued form
+            for (vname, text) in [("json_all_strings_escaped", cred.parts.to_json_escaped()), ("json_pretty_with_surrounding_whitespace", cred.parts.to_json_pretty_ws())] {
+                let r = match drive::holder_new(&text, Fmt::Json) {
+                    Out::Ok(mut h) => drive::present(&mut h, &sel, &pipeline::kb_args(&cfg)),
+                    o => o.map(|_| String::new()),
+                };
+                let pv = r.as_ok().and_then(|s| codec::parse(s, Fmt::Json));
+                let same_sel = match (&parsed[0], &pv) {
+                    (Some(a), Some(b)) => {
+                        let (mut da, mut db) = (a.disclosures.clone(), b.disclosures.clone());
+                        da.sort();
+                        db.sort();
+                        da == db && a.jwt == b.jwt && a.kb.is_some() == b.kb.is_some()
+                    }
+                    (None, None) => outs[0].0.class() == r.class(),
+                    _ => false,
+                };
+                if !same_sel {
+                    let mut case = pipeline::case_json("c10_holder", u, s, &cfg, Some(&sel));
+                    case["json_variant"] = json!(vname);
+                    l.violation(Violation::new("present", if r.is_panic() { "panic" } else { "formats_disagree" }, format!("c10_holder_from_{vname}"), "honest/holder", format!("holder of the issued form: {} ; holder of {vname}: {}", outs[0].0.class(), r.describe()), case));
+                }
+            }
             match (&parsed[0], &parsed[1]) {
                 (Some(a), Some(b)) => {
                     let (mut da, mut db) = (a.disclosures.clone(), b.disclosures.clone());
@@ -413,7 +439,7 @@ pub fn run(rep: &Report) {
     kb_attacks(rep);
     ill_formed(rep);
     rep.sample(json!({"space": "kb_attacks", "triple": "A / S'_plus_one_appended / honest KB for S'", "expectation": "both formats reject"}));
-    rep.sample(json!({"space": "honest", "triple": "holder output for selection {a:true}", "renderings": ["compact", "json", "json+unknown_members", "json_kb_null", "json_kb_empty_string"]}));
+    rep.sample(json!({"space": "honest", "triple": "holder output for selection {a:true}", "renderings": ["compact", "json", "json+unknown_members", "json_all_strings_escaped", "json_pretty_with_surrounding_whitespace", "json_kb_null", "json_kb_empty_string"]}));
     if rep.outcome_count("both_ok") == 0 || rep.outcome_count("both_err") == 0 {
         rep.machinery_error("vacuity: C10 saw only one kind of outcome".into());
     }
@@ -499,6 +525,21 @@ pub fn replay(case: &Value) -> Vec<Violation> {
                             d.sort();
                             d
                         }));
+                    }
+                    if let Some(vname) = case["json_variant"].as_str() {
+                        let text = if vname == "json_all_strings_escaped" { cred.parts.to_json_escaped() } else { cred.parts.to_json_pretty_ws() };
+                        let r = match drive::holder_new(&text, Fmt::Json) {
+                            Out::Ok(mut h) => drive::present(&mut h, &sel, &pipeline::kb_args(&cfg)),
+                            o => o.map(|_| String::new()),
+                        };
+                        let d = r.as_ok().and_then(|s| codec::parse(s, Fmt::Json)).map(|p| {
+                            let mut d = p.disclosures;
+                            d.sort();
+                            d
+                        });
+                        if d != outs[0] {
+                            l.violation(Violation::new("present", if r.is_panic() { "panic" } else { "formats_disagree" }, format!("c10_holder_from_{vname}"), "honest/holder", r.describe(), case.clone()));
+                        }
                     }
                     if outs[0] != outs[1] {
                         let site = if outs[0].is_some() && outs[1].is_some() { "c10_holder_outputs_differ" } else { "c10_holder_verdicts_differ" };
